@@ -787,7 +787,10 @@ func (fr *Frame) sliceOp(in *ssa.Slice) {
 		mx = fr.val(in.Max).T
 	}
 	fr.safety("slice", mkAnd(mkApp("<=", "0", lo), mkApp("<=", lo, hi), mkApp("<=", hi, mx), mkApp("<=", mx, cp)), in.Pos())
-	no := mkAdd(off, lo)
+	no := off
+	if lo != "0" {
+		no = ex.sidx(off, lo)
+	}
 	v := Val{K: VSlice, Fs: []Val{vInt(arr), vInt(no), vInt(mkApp("-", hi, lo)), vInt(mkApp("-", mx, lo))}}
 	if lo == "0" {
 		v.Fs[2], v.Fs[3] = vInt(hi), vInt(mx)
@@ -842,6 +845,19 @@ func (fr *Frame) rangeInstr(in *ssa.Range) {
 	fr.assume(mkApp(">=", it.CardAt, "0"))
 	fr.assume(fmt.Sprintf("(forall ((j Int)) (! (=> (and (<= 0 j) (< j %s)) (and (select %s (%s j)) (= (%s (%s j)) j))) :pattern ((%s j))))", it.CardAt, it.DomAt, it.Enum, idx, it.Enum, it.Enum))
 	fr.assume(fmt.Sprintf("(forall ((k Int)) (! (=> (select %s k) (and (<= 0 (%s k)) (< (%s k) %s) (= (%s (%s k)) k))) :pattern ((%s k))))", it.DomAt, idx, idx, it.CardAt, it.Enum, idx, idx))
+	// keys are well-typed values (references and strings are non-negative)
+	if kl := leavesOf(mt.Key()); len(kl) == 1 {
+		lo := ""
+		switch kl[0].Kind {
+		case "str", "ref":
+			lo = "0"
+		case "int":
+			lo, _, _ = intRange(kl[0].Typ)
+		}
+		if lo != "" {
+			fr.assume(fmt.Sprintf("(forall ((j Int)) (! (=> (and (<= 0 j) (< j %s)) (<= %s (%s j))) :pattern ((%s j))))", it.CardAt, lo, it.Enum, it.Enum))
+		}
+	}
 	ex.get(fr.st, it.Key, SInt)
 	ex.set(fr.st, it.Key, SInt, "0")
 	fr.iters[in] = it
